@@ -84,6 +84,21 @@ func clientErrf(format string, args ...any) error {
 	return rhp4.NewRPCError(rhp4.ErrorCodeClientError, fmt.Sprintf(format, args...))
 }
 
+// sameSatisfiedPolicies reports whether the first n siacoin inputs of the
+// final transaction carry the satisfied policies of the signed transaction.
+func sameSatisfiedPolicies(signed, final types.V2Transaction, n int) bool {
+	if len(signed.SiacoinInputs) < n || len(final.SiacoinInputs) < n {
+		return false
+	}
+	for i := 0; i < n; i++ {
+		a, b := signed.SiacoinInputs[i].SatisfiedPolicy, final.SiacoinInputs[i].SatisfiedPolicy
+		if a.Policy.Address() != b.Policy.Address() || !slices.Equal(a.Signatures, b.Signatures) || !slices.Equal(a.Preimages, b.Preimages) {
+			return false
+		}
+	}
+	return true
+}
+
 // openStream dials a stream setting the default timeout if the context has no
 // deadline. The stream lifetime is tied to the context.
 func openStream(ctx context.Context, t TransportClient, defaultTimeout time.Duration) (net.Conn, error) {
@@ -450,6 +465,13 @@ func rpcRefreshContract(ctx context.Context, t TransportClient, tp TxPool, signe
 	if renewalTxn.ID() != hostRenewalTxn.ID() {
 		signer.ReleaseInputs([]types.V2Transaction{reserved})
 		return RPCRefreshContractResult{}, clientErrf("transaction ID mismatch")
+	}
+
+	// the transaction ID does not cover signatures: the final transaction
+	// must still carry everything we signed, or the set cannot confirm
+	if hostRenewal.RenterSignature != renewal.RenterSignature || !sameSatisfiedPolicies(renewalTxn, hostRenewalTxn, len(req.RenterInputs)) {
+		signer.ReleaseInputs([]types.V2Transaction{reserved})
+		return RPCRefreshContractResult{}, clientErrf("renter signatures missing from the final transaction")
 	}
 
 	// validate the host signature
@@ -1197,7 +1219,7 @@ func RPCFormContract(ctx context.Context, t TransportClient, tp TxPool, signer F
 
 	// the transaction ID does not cover signatures: the contract must still
 	// carry the signature we sent, or the set cannot confirm
-	if hostFormationTxn.FileContracts[0].RenterSignature != fc.RenterSignature {
+	if hostFormationTxn.FileContracts[0].RenterSignature != fc.RenterSignature || !sameSatisfiedPolicies(formationTxn, hostFormationTxn, len(renterSiacoinElements)) {
 		signer.ReleaseInputs([]types.V2Transaction{reserved})
 		return RPCFormContractResult{}, clientErrf("renter signature missing from the final transaction")
 	}
@@ -1355,6 +1377,13 @@ func RPCRenewContract(ctx context.Context, t TransportClient, tp TxPool, signer 
 	if renewalTxn.ID() != hostRenewalTxn.ID() {
 		signer.ReleaseInputs([]types.V2Transaction{reserved})
 		return RPCRenewContractResult{}, clientErrf("transaction ID mismatch")
+	}
+
+	// the transaction ID does not cover signatures: the final transaction
+	// must still carry everything we signed, or the set cannot confirm
+	if hostRenewal.RenterSignature != renewal.RenterSignature || !sameSatisfiedPolicies(renewalTxn, hostRenewalTxn, len(req.RenterInputs)) {
+		signer.ReleaseInputs([]types.V2Transaction{reserved})
+		return RPCRenewContractResult{}, clientErrf("renter signatures missing from the final transaction")
 	}
 
 	// validate the host signature
